@@ -116,22 +116,26 @@ def unmarshalStream (bs : Bytes) : Res (Hdrs × Bytes) :=
 /-- Merge `adds` into `h` in order (the `for name, value := range headers` loop). -/
 def Hdrs.setAll (h : Hdrs) (adds : Hdrs) : Hdrs := adds.foldl (fun a kv => a.set kv.1 kv.2) h
 
-/-- `addHeadersToFrame(frame, headers)`; `frame` includes the 4-byte frame size. -/
+/-- `addHeadersToFrame(frame, headers)`; `frame` includes the 4-byte frame size
+(`len(frame) < 5` → INVALID_DATA; `frame[4]` is the version byte). -/
 def addHeadersToFrame (frame : Bytes) (adds : Hdrs) : Res Bytes :=
-  if frame.length < 5 then .err .invalidData else
-  if frame.getD 4 0 ≠ 0 then .err .badVersion else
-  match unmarshalHeadersFromFrame (frame.drop 5) with
-  | .err e => .err e
-  | .panic p => .panic p
-  | .ok existing =>
-    let merged := existing.setAll adds
-    let oldSize := toI32 (rd32 (frame.drop 5))
-    match sliceFrom frame (9 + oldSize) with
-    | .err e => .err e
-    | .panic p => .panic p
-    | .ok payload =>
-      let ser := marshal merged
-      .ok (be32 (ser.length + payload.length) ++ ser ++ payload)
+  match frame with
+  | _ :: _ :: _ :: _ :: ver :: body =>
+    if ver = 0 then
+      match unmarshalHeadersFromFrame body with
+      | .err e => .err e
+      | .panic p => .panic p
+      | .ok existing =>
+        let merged := existing.setAll adds
+        let oldSize := toI32 (rd32 body)
+        match sliceFrom frame (9 + oldSize) with
+        | .err e => .err e
+        | .panic p => .panic p
+        | .ok payload =>
+          let ser := marshal merged
+          .ok (be32 (ser.length + payload.length) ++ ser ++ payload)
+    else .err .badVersion
+  | _ => .err .invalidData
 
 structure FrameComponents where
   frameSize : Nat
@@ -147,18 +151,20 @@ prefix (a TFramedTransport-framed payload) and strips it. `calculateHeaderSize`
 is taken over the decoded *map*, so duplicate names shift the offset. This
 function is not used outside the tests of lib/go; it is modelled as it is. -/
 def unmarshalFrame (frame : Bytes) : Res FrameComponents :=
-  if frame.length < 5 then .err .invalidData else
-  let frameSize := rd32 frame
-  if frame.length - 4 ≠ frameSize then .err .invalidData else
-  if frame.getD 4 0 ≠ 0 then .err .badVersion else
-  let body := frame.drop 5
-  match unmarshalHeadersFromFrame body with
-  | .err e => .err e
-  | .panic p => .panic p
-  | .ok h =>
-    match sliceFrom body ((calcSize h : Int) + 8) with
-    | .err e => .err e
-    | .panic p => .panic p
-    | .ok payload => .ok ⟨frameSize, 0, h, payload⟩
+  match frame with
+  | _ :: _ :: _ :: _ :: ver :: body =>
+    let frameSize := rd32 frame
+    if frame.length - 4 ≠ frameSize then .err .invalidData else
+    if ver = 0 then
+      match unmarshalHeadersFromFrame body with
+      | .err e => .err e
+      | .panic p => .panic p
+      | .ok h =>
+        match sliceFrom body ((calcSize h : Int) + 8) with
+        | .err e => .err e
+        | .panic p => .panic p
+        | .ok payload => .ok ⟨frameSize, 0, h, payload⟩
+    else .err .badVersion
+  | _ => .err .invalidData
 
 end FV
